@@ -222,8 +222,9 @@ def regenerate(repo=None, pin=False):
     old = open(OUT).read() if os.path.exists(OUT) else None
     if old != text:
         os.makedirs(os.path.dirname(OUT), exist_ok=True)
-        with open(OUT, 'w') as f:
+        with open(OUT + '.tmp', 'w') as f:
             f.write(text)
+        os.replace(OUT + '.tmp', OUT)
     if pin:
         os.makedirs(os.path.dirname(PINNED), exist_ok=True)
         with open(PINNED, 'w') as f:
